@@ -55,6 +55,7 @@ type Contract struct {
 	Trusted  bool
 	Inline   bool
 	macros   []*macro
+	Locals   map[string]string // local NAME TYPE: NAME also stands for the only local of that type
 	Terminates bool
 	Pure     bool
 	Expect   map[string]bool
@@ -362,6 +363,16 @@ func (cs *ContractSet) loadFile(path string, pkgPath string) error {
 			return cl, nil
 		}
 		switch head {
+		case "local":
+			// local NAME TYPE: if the function has no local called NAME (it was renamed), NAME stands
+			// for the one local variable whose declared type prints as TYPE
+			if len(f) != 3 {
+				return fmt.Errorf("%s: %s: local NAME TYPE", path, cur.Key)
+			}
+			if cur.Locals == nil {
+				cur.Locals = map[string]string{}
+			}
+			cur.Locals[f[1]] = f[2]
 		case "prop":
 			cur.Props = append(cur.Props, f[1:]...)
 		case "nopanic":
